@@ -58,6 +58,14 @@ CLAIMED = {
             "G1: every uncompressed frame with tape size 0..4, <= 3 (thorough 4) tags over 16 tag bytes, all per-tag value options (0, wrap-to-0, tape size, 2^63, 2^64-1, ...), value count -8/exact/+8, message empty/3 bytes (3.5 M frames). G2: the complete single-edit closure (every truncation, every byte x 256 values, deletion, duplication) and all two-blob splices of valid blobs of 7 tapes in 4 modes (4 M mutants). Each is deserialized with fresh and with long-lived objects; accepted results are traversed by every walker, lookup, bulk accessor and MarshalJSON under step budgets; a watchdog turns a stuck case into a replayed, confirmed violation.",
             "Frames declaring sizes (incl. zstd content/window size) above 2^24 are out of claim and skipped (counted).",
             "DESIGN.md 4.19"),
+    "C05": ("exhaustive enumeration of bounded adversarial input spaces on the real Parse/ParseND (trivial model: returns, no panic/fault/leak, result traversable)",
+            "All inputs of the C01 spaces, the complete single-edit closure of 20 seed documents (prefixes, suffixes, every byte x 256 values, deletions, insertions, swaps), 14 ladder shapes (unbalanced/balanced nesting, runs of commas/quotes/backslashes, dense valid and invalid arrays, early/late errors, dense NDJSON) at every n within 3 of 64/128/448/512/8192 and every multiple of the live flush threshold up to 17 plus 10^5 (10^6), and the C08 line space; Parse and ParseND, four configs, reused and fresh objects, inputs flush against PROT_NONE guard pages on both sides. Every accepted result is traversed by all walkers, lookups, bulk accessors and MarshalJSON under step budgets; goroutine count must return to baseline.",
+            "Hang = 100 s without progress, confirmed by 3 replays. Interface() is skipped above nesting depth 3000 (quadratic memory, noted in DESIGN.md). Stage deadlock under adversarial schedules is C07's business.",
+            "DESIGN.md 4.5"),
+    "C06": ("differential model checking: exhaustive enumeration of bounded inputs and block shapes on both kernel families",
+            "Whole parser: every input of the C01 spaces, of the C05 mutation closure (Parse and ParseND) and of the C08 line space under AVX-512 and AVX2 kernels: same outcome, identical Tape and Strings. Kernel level: both find_structural_bits_in_slice variants on 64-byte blocks with the last 5 (thorough 6) bytes enumerated over 10 byte classes x 3 fillers, two-block buffers with the first 5 (6) bytes of the second block enumerated, and every padded tail length 1..63 with 4 enumerated bytes, under 16 carried states x ndjson; indexes, counts, processed, carried, position and state words compared.",
+            "Needs AVX-512F (present here); otherwise exhaustive:false and nothing compared.",
+            "DESIGN.md 4.6"),
 }
 
 PENDING_REASON = "check not built yet in this round (planned, see DESIGN.md section 8); not claimed until its machinery exists"
